@@ -28,6 +28,8 @@ def run(chk):
         'argument to a method that returns or raises without keeping it, managed() returns (list, dict, memory block, bundle, view of an existing '
         'object, method_to_typeid), delete proxy, child exits} issued by the director and 1-7 client processes '
         'against a real ServerProcess — in half of the cases against TWO independent ServerProcess managers A and B '
+        '(a quarter of the one-manager cases with an explicit authkey; a registered get-or-create callable called again '
+        'while its object is hosted; FORKed children of single-threaded clients inheriting all proxies through memory) '
         '(objects created on either; proxies of objects hosted by one server stored in / read back from / removed from / '
         'dropped with containers hosted by the other, by the director and by child processes; tables of both servers '
         'checked after every step); after every step the server table (debug_info ids/refcounts), /dev/shm files '
